@@ -87,7 +87,7 @@ def rows(lo, hi):
 def main():
     text = []
     total = {'n': 0, 'first': 0, 'after': 0, 'nfi': 0, 'missed': 0}
-    for title, lo, hi in (('Second round', 3, 4), ('Third round', 5, 6), ('Fourth round', 7, 8), ('Fifth round', 9, 10), ('Sixth round', 11, 12), ('Seventh round', 13, 14), ('Eighth round', 15, 16), ('Ninth round', 17, 18), ('Tenth round', 19, 20), ('Eleventh round', 21, 22)):
+    for title, lo, hi in (('Second round', 3, 4), ('Third round', 5, 6), ('Fourth round', 7, 8), ('Fifth round', 9, 10), ('Sixth round', 11, 12), ('Seventh round', 13, 14), ('Eighth round', 15, 16), ('Ninth round', 17, 18), ('Tenth round', 19, 20), ('Eleventh round', 21, 22), ('Twelfth round', 23, 24)):
         r, st = rows(lo, hi)
         if not r:
             continue
